@@ -1,7 +1,7 @@
 """C06 - a valid index is always equivalent to one rebuilt from storage (DESIGN 4, C06)."""
 
 from .. import observers, qast, refmodel, world as W
-from .base import E1Check, viol
+from .base import E1Check, viol, closure_configs
 from .c01 import std_ops
 
 
@@ -56,6 +56,11 @@ class C06(E1Check):
 
     def bounds(self):
         return {"N": 3, "D": 4} if self.tier == "quick" else {"N": 4, "D": 6, "max_states": 60000}
+
+    def configs(self):
+        # the depth-bounded runs plus runs to the fixpoint within 2 stored points (histories of any length)
+        extra = closure_configs(("mem",)) if self.tier == "quick" else closure_configs(("mem", "csv"))
+        return super().configs() + extra
 
     def budget(self):
         return 600 if self.tier == "quick" else 3 * 3600
